@@ -163,8 +163,8 @@ def handle (req : Json) : Except String Json := do
                   else if sImpl.isSome then none else sModel0
     let groupCounts := table.map (fun e => (groupsOf e.deps).length)
     let branches : List String :=
-      (if table.any (fun e => e.origin ≠ c) then ["table:inherited-entry"] else []) ++
-      (if table.any (fun e => e.origin = c) then ["table:own-entry"] else []) ++
+      (if table.any (fun e => match resolveMethod h c e.name with | some (k, _) => k ≠ c | none => false) then ["table:inherited-entry"] else []) ++
+      (if table.any (fun e => match resolveMethod h c e.name with | some (k, _) => k = c | none => false) then ["table:own-entry"] else []) ++
       (if (methodNames h c).any (fun n => !resolvedWatches h c n) then ["method:not-watched"] else []) ++
       (if groupCounts.any (· ≥ 2) then ["install:several-groups"] else []) ++
       (if groupCounts.any (· == 1) then ["install:one-group"] else []) ++
